@@ -2072,6 +2072,7 @@ type tplVariant struct {
 	Owned       map[string]bool
 	HoleLog     []tplHoleRec
 	AssertProblem string
+	Label       string // the concrete input the variant was explored for (e.g. the function name), "" for free shapes
 }
 
 // tplExplore enumerates the variants of one root function by replaying decision vectors depth-first.
